@@ -169,7 +169,16 @@ def histories(thorough):
     # inputs larger than one chunk (1024 rows) and one block, deletions spread over several row-sets
     big = [['R 0 1300', 'R 1300 2600', 'D k % 3 = 0', 'D k >= 1000 and k < 1100', 'R 5000 5010', 'D v % 7 = 1', 'D k = 2599'],
            ['R 0 2100', 'D k < 1024', 'D k = 1024', 'R 0 10', 'D k >= 2090']]
-    return (base + big) if not thorough else base + big + [h + ['I 100 101', 'D k > 99'] for h in base]
+    # forced compaction ('C': the driver sleeps past the compactor's 1 s timer, every table with two or more row-sets is
+    # rewritten into one, with the run-length / dictionary encoding the compactor picks) and reopen ('O') steps
+    forced = [['I 1 4 7 10', 'I 2 5 8 11', 'I 3 6 9 12', 'D k >= 4 and k <= 6', 'C', 'D k = 8', 'I 5 13', 'O', 'D k > 11', 'I 20 21', 'C', 'D v % 2 = 0'],
+              ['I 7 7 7 7 8 8', 'I 7 7 9 9', 'D k = 8', 'C', 'I 8 7', 'D k = 9', 'O', 'C', 'D k = 7'],
+              ['I 1 2 3 4 5 6 7 8', 'D k < 3', 'I 9 10', 'D k = 9', 'O', 'I 11', 'C', 'O', 'D k > 6'],
+              # few distinct values: the compactor rewrites the columns with dictionary / run-length encoding
+              ['I 7 7 7 7 7 7 8 8 8 8 8 8', 'I 7 7 7 7 8 8 8 8', 'D v = 3', 'C', 'D v = 14', 'I 8 8 7', 'O', 'C', 'D k = 7']]
+    if thorough:
+        forced += [h[:3] + ['C'] + h[3:] + ['O', 'C'] for h in base if len(h) > 3]
+    return ((base + big) if not thorough else base + big + [h + ['I 100 101', 'D k > 99'] for h in base]) + forced
 
 
 def run_probes(rep, thorough):
@@ -180,6 +189,9 @@ def run_probes(rep, thorough):
         dup_keys = any(len(set(st.split()[1:])) != len(st.split()[1:]) for st in hist if st.startswith('I '))
         # 256-byte blocks: 64 rows per scan batch, so a big DELETE covers whole batches of a row-set and later ones start after skipped batches
         configs = [('mem', None, False), ('disk', 4096, False)] + ([('disk', 256, False)] if big else [('disk', 24, False)]) + ([] if dup_keys else [('disk', 4096, True), ('mem', None, True)])
+        forced = any(st in ('C', 'O') for st in hist)
+        if forced:
+            configs = [('disk', 24, False)] + ([] if dup_keys else [('disk', 4096, True)]) + ([('disk', 4096, False)] if thorough or dup_keys else [])
         for eng, block, pk in configs:
             stmts = ['create table t(k int%s, v int)' % (' primary key' if pk else '')]
             model = []
@@ -188,7 +200,9 @@ def run_probes(rep, thorough):
             seq = 0
             checks = []
             for step in hist:
-                if step.startswith(('I ', 'R ')):
+                if step in ('C', 'O'):
+                    stmts.append('--sleep 2300' if step == 'C' else '--reopen')
+                elif step.startswith(('I ', 'R ')):
                     rows = []
                     ks = step.split()[1:] if step.startswith('I ') else range(int(step.split()[1]), int(step.split()[2]))
                     for k in ks:
@@ -260,7 +274,19 @@ def run_probes(rep, thorough):
                     extra = [r for r in got if r not in want]
                     missing = [r for r in want if r not in got]
                     whole = [set(dl) for dl in deleted_by_stmt if dl and all(r in extra for r in dl)]
-                    if big and extra and not missing and whole and set(extra) == set().union(*whole):
+                    if forced and extra and not missing and whole and set(extra) == set().union(*whole):
+                        # same symptom in a history with forced compaction: the race is timing dependent, a compactor
+                        # that drops delete vectors is not -- run the history again (twice) and see whether it repeats
+                        again = 0
+                        for _ in range(2):
+                            d2 = scratch_dir('c07')
+                            out2, _, _ = rl('sql', {'engine': eng, 'stmts': stmts[:idx + 1], 'dir': d2, 'block': block, 'rowset': 1 << 20}, timeout=300)
+                            shutil.rmtree(d2, ignore_errors=True)
+                            r2 = [o_ for o_ in out2 if 'sql' in o_]
+                            g2 = sorted((int(r[0]), int(r[1])) for r in r2[idx]['rows']) if len(r2) > idx and r2[idx].get('ok') else None
+                            again += 1 if g2 == got else 0
+                        key = 'history:disk:deleted-rows-reappear' if again == 0 else 'history:disk:compaction-resurrects-deleted-rows'
+                    elif big and extra and not missing and whole and set(extra) == set().union(*whole):
                         # the symptom of the background compactor replacing row-sets while a DELETE commits (timing dependent):
                         # the *whole* effect of one or more DELETE statements is lost, in a history long enough for the
                         # compactor's timer to fire.  Anything else (some rows of a DELETE, a short history) is a new violation.
@@ -289,7 +315,7 @@ def run_probes(rep, thorough):
         else:
             outc = rep.counterexample('history:disk:slow-scenario', 'DELETE reported %s rows and count(*) afterwards is %s (expected 1024 / 3176)' % (dele, cnt), {'stmts': [s_[:120] for s_ in stmts]}, True)
             rep.obligation(outc == 'known')
-    rep.cov['delete_history_probes'] = {'statements_checked': n, 'agreeing': ok, 'note': 'insert / delete histories on the memory and disk engines (several row-sets, 24-byte and 4 KiB blocks) against a multiset model; concrete probes, not a solver decision; compaction and reopen are not forced'}
+    rep.cov['delete_history_probes'] = {'statements_checked': n, 'agreeing': ok, 'note': 'insert / delete histories on the memory and disk engines (several row-sets, 24-byte and 4 KiB blocks) against a multiset model; concrete probes, not a solver decision; four histories (thorough: twelve) force compaction passes and reopen cycles'}
 
 
 def main(tier, only=None):
